@@ -111,6 +111,8 @@ def run(rep, tier):
         ('ARG-wrap-owner', 'only Str / Byte arguments are wrapped into values that compare by text (memo keys)'),
         ('ARG-captures', 'a compound template argument is handed exactly the local names it uses (free variables '
                          'of the skeleton object) at the place of the call'),
+        ('ARG-by-name', 'a keyword argument travels as (name, value) in the call object; it is never turned into a '
+                        'position by a declaration seen at compile time (the callee is late-bound)'),
         ('SIBLING-argumentize', 'no argumentize override calls itself with unchanged arguments'),
         ('VISIT-coverage', 'every holder of child expressions is reached by base.visit'),
         ('INTERCEPT-table', 'only the documented constructor names are intercepted before user templates'),
@@ -118,8 +120,9 @@ def run(rep, tier):
     ]:
         rep.rule(rid, txt)
     found, stats, nmods = routes.run(rep, 'C06', ['CONV-', 'LOCAL-shadow', 'ENTRY-params', 'ADAPTOR', 'ARG-'],
-                                     label_filter=lambda msg: msg.startswith(('templates', 'shadow', 'let', 'classes',
+                                     label_filter=lambda msg: msg.startswith(('templates', 'shadow', 'let', 'classes', 'inline-python',
                                                                               'deep-nesting', 'runtime', 'sourcer/')))
+    rep.floor('route facts: keyword_call_sites', stats.get('keyword_call_sites', 0), 8)
     rep.floor('route modules emitted', nmods, 26)
     rep.floor('call sites examined', stats['callsites'], 200)
     # a parameter is a reference with the weakest summary: it may fail after consuming (the argument
